@@ -802,11 +802,53 @@ def _check_restricted(ctx, func, call):
     # identifiers (a parameter intersected with the set of the current label
     # value) carries the restriction
     sel_par = None
+    counted = {id(n) for c in ast.walk(func.node) if isinstance(
+        c, ast.Call) and call_name(c) == 'len' for n in ast.walk(c)}
     for par in func.params[2:]:
+        # (the intersections under len() are the counts of the leaf, not a
+        # selection handed down)
         if any(isinstance(n, ast.BinOp) and isinstance(n.op, ast.BitAnd) and
-               {txt(n.left), txt(n.right)} == {setvar, par}
-               for n in ast.walk(func.node)):
+               {txt(n.left), txt(n.right)} == {setvar, par} and
+               id(n) not in counted for n in ast.walk(func.node)):
             sel_par = par
+    # third spelling: the groups of the loop come from a method of the index
+    # that receives the selection (`index.restricted_items(label, ids)`) and
+    # the recursion hands the set of the current value down as the selection
+    if sel_par is None and setvar is not None and loop is not None and \
+            txt(arg) == index_par:
+        src = loop.iter
+        if isinstance(src, ast.Name):
+            cands = [n.value for n in ast.walk(func.node) if isinstance(
+                n, ast.Assign) and any(txt(t) == src.id for t in n.targets)]
+            src = cands[0] if len(cands) == 1 else None
+        while isinstance(src, ast.Call) and call_name(src) in (
+                'list', 'tuple', 'sorted') and src.args:
+            src = src.args[0]
+        if isinstance(src, ast.Call) and txt(receiver(src) or src) == \
+                index_par:
+            passed = {txt(a) for a in src.args} | {
+                txt(k.value) for k in src.keywords}
+            handed = {k.arg: txt(k.value) for k in call.keywords}
+            pars = [p for p in func.params if p not in ('self', 'cls')]
+            for pos, a in enumerate(call.args):
+                if pos < len(pars):
+                    handed[pars[pos]] = txt(a)
+            for par in func.params[2:]:
+                if par in passed and handed.get(par) == setvar:
+                    callees, _ = ctx.program.resolve_call(func, src)
+                    narrows = [c for c in callees if any(
+                        (isinstance(n, ast.BinOp) and isinstance(
+                            n.op, ast.BitAnd)) or (isinstance(
+                                n, ast.Call) and call_name(n) in (
+                                    'intersection', 'keep_only'))
+                        for n in ast.walk(c.node))]
+                    ctx.decide(
+                        'COUNT-SHAPE', func,
+                        f'recursion narrows the selection inside '
+                        f'{txt(src.func)}: {par}={setvar}',
+                        True if callees and len(narrows) == len(callees)
+                        else None, at=func.where(call))
+                    return
     if sel_par is not None and setvar is not None and txt(arg) == index_par:
         given = None
         for kwd in call.keywords:
